@@ -489,7 +489,7 @@ def handleIO (op : String) (args : List String) (impl : Option (List String)) : 
     let f ← readFile path
     let tab ← loadZtab ztab
     return runScan Sha.zckHash (mkDecomp tab) f ops.toList impl
-  | "WRITE", [_, cfg, ops] =>
+  | "WRITE", [outPath, cfg, ops] =>
     -- configuration and operations as the harness reads them
     let kvs := cfg.splitOn ","
     let get := fun (k : String) => kv kvs k
@@ -506,9 +506,22 @@ def handleIO (op : String) (args : List String) (impl : Option (List String)) : 
     | none => return ("BADOP", none)
     | some mops =>
       let content := Writer.written mops
+      -- the header the implementation wrote is what the model of header_create (`Encode.header`) serialises from the fields
+      -- the reference parser reads out of it, and the file is that header followed by exactly the data section
+      let closed := match impl with
+        | some ("OK" :: rest) => kv rest "close" == some "1"
+        | _ => false
+      let hdrOk ← (do
+        if !closed then pure true else
+        let f ← readFile outPath
+        match Format.parse Sha.zckHash f with
+        | some h =>
+          let spec : Encode.Spec := ⟨h.hashType, h.chunkHashType, h.flags, h.compType, h.dataDigest, h.chunks⟩
+          pure (Encode.header Sha.zckHash spec == some (f.take (h.lead + h.headerLen)) && f.length == h.lead + h.headerLen + h.dataLen)
+        | none => pure false)
       let out := match Writer.closeChunks wcfg mops with
         | none => "HANG"
-        | some chunks => s!"OK close=1 lens={",".intercalate ((dictLen :: chunks.map (·.length)).map toString)}"
+        | some chunks => s!"OK close=1 lens={",".intercalate ((dictLen :: chunks.map (·.length)).map toString)} hdr={if hdrOk then 1 else 0}"
       let pv := impl.map fun i =>
         match i with
         | "OK" :: rest =>
